@@ -240,7 +240,13 @@ Library::Error Library::load(const char exename[], const char path[], bool debug
 
     if (error == tinyxml2::XML_SUCCESS) {
         if (mData->mFiles.find(absolute_path) == mData->mFiles.end()) {
-            Error err = load(doc);
+            Error err;
+            try {
+                err = load(doc);
+            } catch (const std::runtime_error &e) {
+                // conversion of an attribute value failed (strToInt)
+                return Error(ErrorCode::BAD_ATTRIBUTE_VALUE, e.what());
+            }
             if (err.errorcode == ErrorCode::OK)
                 mData->mFiles.insert(std::move(absolute_path));
             return err;
